@@ -600,12 +600,14 @@ def container_kind(ty):
         return "map"
     if ty.startswith("std::collections::VecDeque<"):
         return "deque"
+    if ty == "std::string::String":
+        return "string"
     return None
 
 
-NEW_FN = {"vec": "std::vec::Vec::<T>::new", "set": "std::collections::HashSet::<T>::new", "map": "std::collections::HashMap::<K, V>::new",
+NEW_FN = {"string": "std::string::String::new", "vec": "std::vec::Vec::<T>::new", "set": "std::collections::HashSet::<T>::new", "map": "std::collections::HashMap::<K, V>::new",
           "deque": "std::collections::VecDeque::<T>::new"}
-ADD_FN = {"vec": "std::vec::Vec::<T, A>::push", "set": "std::collections::HashSet::<T, S, A>::insert",
+ADD_FN = {"string": "std::string::String::push", "vec": "std::vec::Vec::<T, A>::push", "set": "std::collections::HashSet::<T, S, A>::insert",
           "map": "std::collections::HashMap::<K, V, S, A>::insert", "deque": "std::collections::VecDeque::<T, A>::push_back"}
 
 
